@@ -316,10 +316,131 @@ def run(ctx, model):
                     break
         if vio:
             ctx.violations.append({"signature": {"class": vio[0], "forced": case["force"], "previous": case["previous"]}, "what": vio[1], "case": {"kind": "fault", **label}})
+    slow_reader(ctx, cov)
     return cov
 
 
+def slow_reader_child(work):
+    """The command stream given as a PATH (a FIFO, the slave side of a pty) whose reader is slower than the writer: an
+    inline upload much larger than the kernel's buffer.  Either every byte of the transmission arrives and the upload is
+    recorded, or the caller gets an error and nothing is recorded."""
+    import threading
+    import time as _t
+    common.scrub_process_env()
+    os.environ["HOME"] = work
+    os.environ["XDG_STATE_HOME"] = os.path.join(work, "state")
+    os.environ["XDG_CONFIG_HOME"] = os.path.join(work, "config")
+    import tupimage
+    from PIL import Image
+    import random as _random
+    noise = _random.Random(9)
+    big = os.path.join(work, "c09-large.png")
+    if not os.path.exists(big):
+        im = Image.new("RGB", (300, 300))
+        im.putdata([(noise.randrange(256), noise.randrange(256), noise.randrange(256)) for _ in range(90000)])
+        im.save(big)
+    tty_in = open("/dev/tty", "rb", buffering=0)
+    out = []
+    for kind in ("fifo", "pty"):
+        db = os.path.join(work, f"c09-slow-{os.getpid()}-{kind}.db")
+
+        def mk(stream, term_id):
+            return tupimage.TupimageTerminal(out_command=stream, out_display=common.RecStream(), in_response=tty_in, id_database=db, terminal_id=term_id, config="DEFAULT",
+                                             id_space="8bit", id_subspace="10:12", upload_method="direct", redetect_terminal=False, num_tmux_layers=0)
+        ref = common.RecStream()
+        inst = mk(ref, "term-REF").upload(big, force_upload=True)
+        reference = b"".join(ref.writes)
+        received = bytearray()
+        master = None
+        if kind == "fifo":
+            path = os.path.join(work, f"c09-slow-{os.getpid()}.fifo")
+            os.mkfifo(path)
+            opener = lambda: os.open(path, os.O_RDONLY)
+        else:
+            import pty
+            import tty
+            master, slave = pty.openpty()
+            tty.setraw(slave)
+            path = os.ttyname(slave)
+            opener = lambda: master
+        done = threading.Event()
+
+        def reader():
+            fd = opener()
+            _t.sleep(0.7)        # the terminal is busy: the writer fills the kernel's buffer meanwhile
+            while True:
+                if kind == "pty":
+                    import select
+                    r, _, _ = select.select([fd], [], [], 0.2)
+                    if not r:
+                        if done.is_set():
+                            break
+                        continue
+                try:
+                    b = os.read(fd, 4096)
+                except OSError:
+                    break
+                if not b:
+                    break
+                received.extend(b)
+                _t.sleep(0.0005)
+            if kind == "fifo":
+                os.close(fd)
+
+        th = threading.Thread(target=reader, daemon=True)
+        th.start()
+        t = mk(path, "term-X")
+        exc = None
+        t0 = _t.time()
+        try:
+            t.upload(big, force_upload=True)
+        except BaseException as e:  # noqa: BLE001
+            exc = type(e).__name__
+        wall = _t.time() - t0
+        try:
+            t.term.out_command.close()
+        except OSError:
+            pass
+        done.set()
+        th.join(timeout=30)
+        needs = mk(common.RecStream(), "term-X").needs_uploading(inst.id)
+        out.append({"kind": kind, "exc": exc, "needs_after": bool(needs), "received": len(received), "expected": len(reference), "identical": bytes(received) == reference,
+                    "first_difference": next((i for i, (a, b) in enumerate(zip(received, reference)) if a != b), min(len(received), len(reference))), "wall": round(wall, 2)})
+        for f in (db, db + "-wal", db + "-shm"):
+            try:
+                os.remove(f)
+            except OSError:
+                pass
+        if kind == "fifo":
+            os.remove(path)
+    return out
+
+
+def slow_reader(ctx, cov):
+    work = ctx.work
+    r = common.in_pty(lambda: slow_reader_child(work), timeout=300)
+    if "ok" not in r:
+        ctx.corr_breaks.append({"what": "slow-reader scenarios failed in the pty sandbox", "error": {k: v for k, v in r.items() if k != "tty"}})
+        return
+    for o in r["ok"]:
+        cov.add(o, klass=f"slow-reader/{o['kind']}/" + ("raised" if o["exc"] else "completed"))
+        if not o["identical"] and (o["exc"] is None or not o["needs_after"]):
+            ctx.violations.append({"signature": {"class": "recorded-despite-failed-transmission" if not o["needs_after"] else "error-not-propagated", "route": "command stream given as a path, slow reader"},
+                                   "what": f"command stream = path of a {o['kind']} whose reader is slower than the writer: only {o['received']} of the {o['expected']} bytes of the transmission "
+                                           f"arrived (first difference at byte {o['first_difference']}), upload() raised {o['exc']}, needs_uploading afterwards = {o['needs_after']}",
+                                   "case": {"kind": "slow-reader", "stream": o["kind"]}})
+        elif o["identical"] and o["exc"] is None and o["needs_after"]:
+            ctx.violations.append({"signature": {"class": "complete-transmission-not-recorded", "route": "command stream given as a path, slow reader"},
+                                   "what": f"{o['kind']}: the whole transmission arrived without an error but the upload is not recorded", "case": {"kind": "slow-reader", "stream": o["kind"]}})
+
+
 def replay(ctx, model, rec):
+    if rec.get("case", {}).get("kind") == "slow-reader":
+        n0 = len(ctx.violations)
+        slow_reader(ctx, common.Coverage("replay"))
+        mine = ctx.violations[n0:]
+        del ctx.violations[n0:]
+        return {"violates": bool(mine), "violations": [v["what"] for v in mine][:3]}
     case = dict(rec["case"])
     case.pop("kind", None)
     case.pop("calls_in_full_transmission", None)
